@@ -1,10 +1,10 @@
 SPECIFICATION MCSpec
 CONSTANTS
-  Sub = {"s1", "s2", "s3"}
+  Sub = {"s1", "s2"}
   Id = {"i1", "i2"}
-  Calls <- Calls_3same
-  ChanCap = 2
-  MaxTasks = 3
+  Calls <- Calls_2x22
+  ChanCap = 1
+  MaxTasks = 4
   Cancellable = {}
   RegisterFirst = TRUE
 INVARIANTS
